@@ -669,6 +669,7 @@ func (e *kvElection) Stop() error {
 		return ErrAlreadyStopped
 	}
 	e.stopped = true
+	runCtx := e.ctx // for logging below: e.ctx itself may be cleared by a concurrent StopWithContext
 	e.stopping++
 	defer func() {
 		e.mu.Lock()
@@ -711,7 +712,7 @@ func (e *kvElection) Stop() error {
 
 	log := e.getLogger()
 	log.Info("election_stopped",
-		append(e.logWithContext(e.ctx),
+		append(e.logWithContext(runCtx),
 			zap.Bool("was_leader", wasLeader),
 		)...,
 	)
@@ -737,7 +738,7 @@ func (e *kvElection) Stop() error {
 
 	if wasLeader && onDemote != nil {
 		log.Info("leader_demoted",
-			append(e.logWithContext(e.ctx),
+			append(e.logWithContext(runCtx),
 				zap.String("reason", "stop"),
 			)...,
 		)
